@@ -312,3 +312,11 @@ func (g *grammarInfo) labels(rule string) []string {
 	}
 	return out
 }
+
+func regexpFindAll(pattern, s string) []string {
+	var out []string
+	for _, m := range regexp.MustCompile(pattern).FindAllStringSubmatch(s, -1) {
+		out = append(out, m[1])
+	}
+	return out
+}
